@@ -592,19 +592,60 @@ func c12Breaker(r *zsim.Run) {
 		return
 	}
 	zsim.Sleep(11 * time.Second)
-	// connection failures must open it
-	a.Cut()
-	r.FaultFired("redis-cut")
+	// connection-level failures must open it
+	kind := r.Fault.Intn(3) // 0 refused dials, 1 connection reset before delivery, 2 server stalls past the read timeout
 	rejected := false
+	if kind == 2 {
+		// ten concurrent calls all time out (each one takes retries x read timeout of virtual time)
+		a.Stall = func(cmd string, args []string) time.Duration { r.FaultFired("redis-stall"); return 10 * time.Second }
+		done := 0
+		for i := 0; i < 10; i++ {
+			r.Go(fmt.Sprintf("stalled%d", i), func() {
+				defer func() { done++ }()
+				if _, err := w.Get("s1"); err == nil {
+					r.Failf("outage-invisible", "Get succeeded although the server never answers")
+				}
+			})
+		}
+		if !r.WaitFor(5*time.Minute, time.Second, func() bool { return done == 10 }) {
+			r.Failf("calls-hang", "calls against a stalled server never return: %v", r.Alive(false))
+			return
+		}
+		if r.Failed() {
+			return
+		}
+		a.Stall = nil
+		for i := 0; i < 5; i++ {
+			n := len(a.Cmds)
+			_, err := w.Get("s1")
+			r.Logf("probe after timeouts -> %v", err)
+			if len(a.Cmds) == n && err != nil && strings.Contains(err.Error(), "断路器") {
+				rejected = true
+				r.Probe("breaker_opened_after_timeouts")
+				break
+			}
+		}
+		if !rejected {
+			r.Failf("breaker-not-tripped", "ten calls that timed out against a stalled server did not open the per-address breaker")
+		}
+		return
+	}
+	if kind == 1 {
+		a.DropRequest = 1 << 20
+	} else {
+		a.Cut()
+	}
+	r.FaultFired("redis-cut")
 	for i := 0; i < 12; i++ {
 		dials := a.Dials
+		cmds := len(a.Cmds)
 		_, err := w.Get("s1")
 		r.Logf("get while down -> %v (dials %d)", err, a.Dials-dials)
 		if err == nil {
 			r.Failf("outage-invisible", "Get succeeded while the server is unreachable")
 			return
 		}
-		if a.Dials == dials && strings.Contains(err.Error(), "断路器") {
+		if a.Dials == dials && len(a.Cmds) == cmds && strings.Contains(err.Error(), "断路器") {
 			rejected = true
 			r.Probe("breaker_opened_after_" + fmt.Sprint(i))
 			break
